@@ -721,6 +721,7 @@ class Engine:
         self.vtime = 0
         self.timer_log = []
         self.timers_pending = False
+        self.dial_pending = False
         self.chan_hooks = {}
         self.wg_counters = {}
         self.mutexes = {}
